@@ -102,3 +102,70 @@ package render
 //@   requires pg != nil
 //@   modifies pg.err
 //@   ensures pg.err == err && result == pg
+
+// ---- pagination (C02) ----
+//@ func (*Menu).Put
+//@   serves C02
+//@   requires m != nil
+//@   modifies m.menu, m.menu[*]
+//@   ensures result == nil && len(m.menu) == old(len(m.menu)) + 1 && (sameBacking(m.menu, old(m.menu)) || fresh(m.menu))
+
+// applyPage: which lateral navigation entries a page gets. 'next' on every page
+// but the last, 'previous' on every page but the first, an index past the end is a BrowseError.
+//@ func (*Menu).applyPage
+//@   serves C02
+//@   safety[C02]
+//@   requires m != nil
+//@   modifies m.menu, m.menu[*], m.canNext, m.canPrevious
+//@   ensures[C02] @unpaged m.pageCount == 0 ==> (idx > 0 ==> result != nil) && (idx == 0 ==> result == nil) && len(m.menu) == old(len(m.menu))
+//@   ensures[C02] @past m.pageCount > 0 && idx >= m.pageCount ==> typeis[*BrowseError](result) && len(m.menu) == old(len(m.menu))
+//@   ensures[C02] @inrange m.pageCount > 0 && idx < m.pageCount ==> result == nil
+//@   ensures[C02] @next m.pageCount > 0 && idx < m.pageCount ==> m.canNext == ((m.browse.NextAvailable || old(m.canNext)) && idx != m.pageCount - 1)
+//@   ensures[C02] @previous m.pageCount > 0 && idx < m.pageCount ==> m.canPrevious == ((m.browse.PreviousAvailable || old(m.canPrevious)) && idx != 0)
+//@   ensures[C02] @entries m.pageCount > 0 && idx < m.pageCount ==> len(m.menu) == old(len(m.menu)) + ite(m.canNext, 1, 0) + ite(m.canPrevious, 1, 0)
+
+// GetAt: the slice of the sink content that belongs to a page. A page index past the
+// cursors is an error; the slice expression needs every cursor to lie inside the content.
+//@ func (*Sizer).GetAt
+//@   serves C02
+//@   safety[C02]
+//@   requires szr != nil
+//@   requires[C02] @cursors szr.sink != "" && in(szr.sink, values) ==> forall(i, 0, len(szr.crsrs), int(szr.crsrs[i]) <= len(values[szr.sink]))
+//@   ensures @nosink szr.sink == "" ==> result0 == values && result1 == nil
+//@   ensures[C02] @past szr.sink != "" && in(szr.sink, values) && int(idx) >= len(szr.crsrs) ==> result1 != nil
+//@   ensures[C02] @found result1 == nil && szr.sink != "" ==> fresh(result0) && all[string](k, in(k, result0) == in(k, values))
+//@     && all[string](k, in(k, values) && k != szr.sink ==> result0[k] == values[k])
+//@   loop 1 modifies outValues[*]
+//@   loop 1 invariant @visited all[string](k, visited(k) ==> in(k, values))
+//@   loop 1 invariant @copied all[string](k, in(k, outValues) == visited(k)) && all[string](k, visited(k) && k != szr.sink ==> outValues[k] == values[k])
+//@     && (in(szr.sink, values) && visited(szr.sink) ==> int(idx) < len(szr.crsrs))
+
+// joinSink: lays the rows out over pages (LF between pages, NUL between rows of a page) and
+// records the offset at which every page after the first starts. Decided here by lengths and
+// last bytes only (builder contents are not modelled): every recorded offset lies inside the
+// returned string (what makes GetAt's slice expression safe and a page past the end an error),
+// and one offset is recorded per page after the first. Rows come from strings.Split(.., "\n"):
+// they contain no LF.
+//@ func (*Sizer).AddCursor
+//@   serves C02
+//@   safety[C02]
+//@   requires szr != nil
+//@   modifies szr.crsrs, szr.crsrs[*]
+//@   ensures len(szr.crsrs) == old(len(szr.crsrs)) + 1 && szr.crsrs[len(szr.crsrs) - 1] == c && (sameBacking(szr.crsrs, old(szr.crsrs)) || fresh(szr.crsrs))
+//@     && forall(i, 0, old(len(szr.crsrs)), szr.crsrs[i] == old(szr.crsrs[i]))
+//@ pred noLfEnd(s) = len(s) > 0 ==> s[len(s) - 1] != 10
+//@ func (*Page).joinSink
+//@   serves C02
+//@   safety[C02]
+//@   requires pg != nil && pg.sizer != nil && forall(i, 0, len(sinkValues), noLfEnd(sinkValues[i])) && len(sinkValues) < 65535
+//@   modifies pg.sizer.crsrs, pg.sizer.crsrs[*], sbLen[ALL], sbLast[ALL]
+//@   ensures[C02] @cursors result2 == nil ==> forall(i, old(len(pg.sizer.crsrs)), len(pg.sizer.crsrs), int(pg.sizer.crsrs[i]) <= len(result0))
+//@   ensures[C02] @kept len(pg.sizer.crsrs) >= old(len(pg.sizer.crsrs)) && forall(i, 0, old(len(pg.sizer.crsrs)), pg.sizer.crsrs[i] == old(pg.sizer.crsrs[i]))
+//@   ensures[C02] @pages result2 == nil && int(result1) >= 1 ==> len(pg.sizer.crsrs) - old(len(pg.sizer.crsrs)) == int(result1) - 1
+//@   loop 1 modifies pg.sizer.crsrs, pg.sizer.crsrs[*], sbLen[ALL], sbLast[ALL]
+//@   loop 1 invariant @builders sbLen(refOf(tb)) >= 0 && sbLen(refOf(rb)) >= 0 && (sbLen(refOf(tb)) > 0 ==> sbLast(refOf(tb)) != 10)
+//@   loop 1 invariant @kept len(pg.sizer.crsrs) >= old(len(pg.sizer.crsrs)) && forall(i, 0, old(len(pg.sizer.crsrs)), pg.sizer.crsrs[i] == old(pg.sizer.crsrs[i]))
+//@   loop 1 invariant @cursors forall(i, old(len(pg.sizer.crsrs)), len(pg.sizer.crsrs), int(pg.sizer.crsrs[i]) <= sbLen(refOf(rb)))
+//@   loop 1 invariant @pages len(pg.sizer.crsrs) - old(len(pg.sizer.crsrs)) == int(count) && int(count) <= _i
+//@   loop 1 invariant @backing sameBacking(pg.sizer.crsrs, loopold(pg.sizer.crsrs)) || loopfresh(pg.sizer.crsrs)
+//@   loop 1 invariant @lastrow _i >= 1 && len(sinkValues[_i - 1]) > 0 ==> sbLen(refOf(tb)) > 0
